@@ -28,6 +28,8 @@ def run(tier, replay=None):
         r2 = run_tlc("Gen_Flow", cfg="Gen_Flow_sim", simulate=nflow, depth=40, workers=4, seed_=seed() * 11 + 2, heap="6g")
         tres = [r1, r2]
         texts = [c["text"] for c in r1.tagged("CASE")] + [c["text"] for c in r2.tagged("CASE")]
+        cres = run_tlc("Gen_Conform", cfg="Gen_Conform", simulate=(30 if tier == "quick" else 600), depth=10, workers=4, seed_=seed() * 59 + 4)
+        texts += list(dict.fromkeys(c["text"] for c in cres.tagged("CASE"))) + corpus.SHARED_PROGRAMS
         texts += list(corpus.all_programs().values()) + corpus.VALUE_PROGRAMS + corpus.LOOP_PROGRAMS + corpus.ORDER_PROGRAMS
         texts = list(dict.fromkeys(texts))
     for r in tres:
